@@ -724,6 +724,11 @@ pub fn cmd_drive(args: &[String]) -> i32 {
             ),
         ));
     }
+    if prop == "C19" {
+        if let Ok(t) = std::fs::read_to_string(out_root().join("work").join("autotraits-configs.txt")) {
+            extra.push(("send_sync_probe_build_configurations".into(), J::Arr(t.lines().filter(|l| !l.is_empty()).map(|l| J::s(l)).collect())));
+        }
+    }
     extra.push(("seeds".into(), J::obj().set("base_seed", J::u(seed)).set("run_index_range", J::Arr(vec![J::u(0), J::u(r.stats.get("evaluations"))])).set("note", J::s("world i uses splitmix64(seed ^ golden*(i+1)) as root of three independent streams"))));
     if !notes.is_empty() {
         extra.push(("unclaimed_observations".into(), J::Arr(notes.iter().map(|n| J::s(n)).collect())));
